@@ -37,47 +37,51 @@ fn cpu_ms(clock: libc::clockid_t) -> u64 {
     unsafe { libc::clock_gettime(clock, &mut ts) };
     ts.tv_sec as u64 * 1000 + ts.tv_nsec as u64 / 1_000_000
 }
-/// The verdict "hang" needs the case to exceed the wall limit AND either to have
-/// burnt >= 75 % of it on the worker thread's CPU clock (busy loop) or to exceed
-/// 5x the limit on the wall clock (blocked forever) — so that a descheduled
-/// worker on a loaded machine is never mistaken for a hang.
+static WD_CPU0: AtomicU64 = AtomicU64::new(0);
+static WD_MIN_LIMIT: AtomicU64 = AtomicU64::new(0);
+static WD_CLOCK: OnceLock<libc::clockid_t> = OnceLock::new();
+/// The verdict "hang" is load-independent: the worker thread must have burnt
+/// `limit` of its own CPU time inside the case (busy loop), or the case must be
+/// blocked for max(60 s, 5 x limit) of wall time (deadlock).  A descheduled
+/// worker on an oversubscribed machine is therefore never mistaken for a hang.
 fn start_watchdog() {
-    static STARTED: OnceLock<()> = OnceLock::new();
-    if STARTED.set(()).is_err() {
+    if WD_CLOCK.get().is_some() {
         return;
     }
     let _ = now_ms();
     let mut cid: libc::clockid_t = 0;
     unsafe { libc::pthread_getcpuclockid(libc::pthread_self(), &mut cid) };
-    std::thread::spawn(move || {
-        let mut seen = 0u64;
-        let mut cpu_at_seen = 0u64;
-        loop {
-            std::thread::sleep(Duration::from_millis(40));
-            let s = WD_START.load(Ordering::Relaxed);
-            if s == 0 {
-                seen = 0;
-                continue;
-            }
-            if s != seen {
-                seen = s;
-                cpu_at_seen = cpu_ms(cid);
-            }
-            let wall = (now_ms() + 1).saturating_sub(s);
-            let lim = WD_LIMIT.load(Ordering::Relaxed);
-            if wall >= lim {
-                let cpu = cpu_ms(cid).saturating_sub(cpu_at_seen);
-                if cpu * 4 >= lim * 3 || wall >= lim * 5 {
-                    eprintln!("WATCHDOG: case exceeded {lim} ms (wall {wall} ms, cpu {cpu} ms)");
-                    unsafe { libc::_exit(124) };
-                }
-            }
+    let _ = WD_CLOCK.set(cid);
+    std::thread::spawn(move || loop {
+        std::thread::sleep(Duration::from_millis(50));
+        let s = WD_START.load(Ordering::Relaxed);
+        if s == 0 {
+            continue;
+        }
+        let c0 = WD_CPU0.load(Ordering::Relaxed);
+        let lim = WD_LIMIT.load(Ordering::Relaxed);
+        let wall = (now_ms() + 1).saturating_sub(s);
+        if wall < lim {
+            continue;
+        }
+        let cpu = cpu_ms(cid).saturating_sub(c0);
+        // re-check that the same case is still running (cpu0/start are two separate stores)
+        if WD_START.load(Ordering::Relaxed) != s {
+            continue;
+        }
+        if cpu >= lim || wall >= (5 * lim).max(60_000) {
+            eprintln!("WATCHDOG: case exceeded {lim} ms (wall {wall} ms, cpu {cpu} ms)");
+            unsafe { libc::_exit(124) };
         }
     });
 }
 #[inline]
 fn arm(limit_ms: u64) {
-    WD_LIMIT.store(limit_ms, Ordering::Relaxed);
+    WD_START.store(0, Ordering::Relaxed);
+    WD_LIMIT.store(limit_ms.max(WD_MIN_LIMIT.load(Ordering::Relaxed)), Ordering::Relaxed);
+    if let Some(c) = WD_CLOCK.get() {
+        WD_CPU0.store(cpu_ms(*c), Ordering::Relaxed);
+    }
     WD_START.store(now_ms() + 1, Ordering::Relaxed);
 }
 #[inline]
@@ -86,8 +90,8 @@ fn disarm() {
 }
 
 /// Address-space cap: an absurd allocation fails instead of eating the shared machine.
-fn limit_address_space() {
-    let lim = libc::rlimit { rlim_cur: 8 << 30, rlim_max: 8 << 30 };
+fn limit_address_space(gib: u64) {
+    let lim = libc::rlimit { rlim_cur: gib << 30, rlim_max: gib << 30 };
     unsafe { libc::setrlimit(libc::RLIMIT_AS, &lim) };
 }
 
@@ -496,6 +500,7 @@ const SEEDS: &[&str] = &[
     "SELECT a , b FROM t GROUP BY 1 , 2 ORDER BY COUNT ( * )",
     "SELECT /* c */ a FROM t",
     "SELECT SUM ( d ) , AVG ( d ) , MAX ( d ) - MIN ( d ) FROM u",
+    "SELECT a FROM t ORDER BY b LIMIT 0",
     // ---- INSERT ----
     "INSERT INTO t VALUES ( 4 , 'w' , 4.5 )",
     "INSERT INTO t ( a , b ) VALUES ( 5 , 'v' ) , ( 6 , NULL )",
@@ -507,12 +512,14 @@ const SEEDS: &[&str] = &[
     "INSERT INTO u ( a , j , v ) VALUES ( 9 , '{\"k\":[1,2]}' , '[0.5,0.5,0.5]' )",
     "INSERT INTO t VALUES ( 1 , 'dup' , 0.0 )",
     "INSERT INTO t ( a ) VALUES ( NULL )",
+    "INSERT INTO t VALUES ( 'k' , 1 , 'z' )",
     // ---- UPDATE ----
     "UPDATE t SET b = 'q' WHERE a = 1",
     "UPDATE t SET b = 'q' , c = c + 1",
     "UPDATE t SET b = u . e FROM u WHERE t . a = u . a",
     "UPDATE t SET a = a + 1 WHERE a = 3 RETURNING *",
     "UPDATE t SET a = 2 WHERE a = 1",
+    "UPDATE t SET b = 5 , c = 'x' WHERE a = 1",
     "UPDATE u SET d = ( SELECT MAX ( a ) FROM t ) WHERE a IN ( SELECT a FROM t )",
     // ---- DELETE ----
     "DELETE FROM t",
@@ -1082,23 +1089,37 @@ impl PragGen {
         }
         PragGen { singles, reduced }
     }
+    /// layout (tier independent): A = every single statement on the plain database;
+    /// B = reduced statement list after each of the two preludes (WAL on + insert,
+    /// open transaction + insert); [quick ends] C = every single statement after the
+    /// two preludes (those of B are skipped); D = every ordered pair of the reduced list.
     fn quick(&self) -> u64 {
-        (self.singles.len() * PRELUDES.len()) as u64
+        (self.singles.len() + 2 * self.reduced.len()) as u64
     }
     fn thorough(&self) -> u64 {
-        self.quick() + (self.reduced.len() * self.reduced.len()) as u64
+        self.quick() + (2 * self.singles.len() + self.reduced.len() * self.reduced.len()) as u64
     }
     fn gen(&self, idx: u64) -> Act {
-        let q = self.quick();
+        let (ns, nr) = (self.singles.len(), self.reduced.len());
+        let idx = idx as usize;
         let mut a;
-        if idx < q {
-            let (p, s) = ((idx as usize) / self.singles.len(), (idx as usize) % self.singles.len());
-            let sql = &self.singles[s];
+        if idx < ns {
+            let sql = &self.singles[idx];
             a = Act::sql(pragma_class(sql), sql.clone());
-            a.pre = PRELUDES[p].iter().map(|s| s.to_string()).collect();
+        } else if idx < ns + 2 * nr {
+            let r = idx - ns;
+            let sql = &self.reduced[r % nr];
+            a = Act::sql(pragma_class(sql), sql.clone());
+            a.pre = PRELUDES[1 + r / nr].iter().map(|s| s.to_string()).collect();
+        } else if idx < ns + 2 * nr + 2 * ns {
+            let r = idx - ns - 2 * nr;
+            let sql = &self.singles[r % ns];
+            a = Act::sql(pragma_class(sql), sql.clone());
+            a.pre = PRELUDES[1 + r / ns].iter().map(|s| s.to_string()).collect();
+            a.skip = self.reduced.contains(sql);
         } else {
-            let r = (idx - q) as usize;
-            let (x, y) = (r / self.reduced.len(), r % self.reduced.len());
+            let r = idx - 3 * ns - 2 * nr;
+            let (x, y) = (r / nr, r % nr);
             a = Act::sql(pragma_class(&self.reduced[y]), self.reduced[y].clone());
             a.pre = vec![self.reduced[x].clone()];
         }
@@ -1365,7 +1386,7 @@ impl Gens {
         let fq = FUNCS.len() as u64 * FN_PER_Q;
         vec![
             SubDef { name: "tok", block: 512, quick: tok_count(4), thorough: tok_count(5), bulk: true },
-            SubDef { name: "prag", block: 1, quick: self.g.quick(), thorough: self.g.thorough(), bulk: false },
+            SubDef { name: "prag", block: 16, quick: self.g.quick(), thorough: self.g.thorough(), bulk: false },
             SubDef { name: "arith", block: 256, quick: arith_count(), thorough: arith_count(), bulk: false },
             SubDef { name: "fn", block: 256, quick: fq, thorough: fq + FUNCS.len() as u64 * 1728, bulk: false },
             SubDef { name: "par", block: 128, quick: *self.p.cum1.last().unwrap(), thorough: self.p.cum1.last().unwrap() + self.p.cum2.last().unwrap(), bulk: false },
@@ -1411,16 +1432,17 @@ fn known_killer(sub: &str, act: &Act) -> Option<&'static str> {
         let f = act.class.strip_prefix("fn-").unwrap_or("");
         let args: Vec<&str> = s.split_once("( ").and_then(|x| x.1.rsplit_once(" )")).map(|x| x.0.split(" , ").collect()).unwrap_or_default();
         const MAX: &str = "9223372036854775807";
-        // KF-C22-K1: a string of i64::MAX bytes is requested from the allocator -> handle_alloc_error -> abort
-        let count_pos = match f {
-            "REPEAT" | "LPAD" | "RPAD" => 1,
-            "SPACE" => 0,
-            _ => return None,
+        // KF-C22-K1: REPEAT / SPACE / LPAD request a string of i64::MAX bytes from the
+        //            allocator -> handle_alloc_error -> abort
+        // KF-C22-K2: RPAD appends pad characters in a loop of `count as usize` iterations
+        //            (i64::MAX, or 2^64-1 for -1): never returns, dies when memory runs out
+        // (`d` is the fixture column that holds i64::MAX and i64::MIN)
+        let count = args.get(if f == "SPACE" { 0 } else { 1 }).copied().unwrap_or("");
+        return match f {
+            "REPEAT" | "LPAD" | "SPACE" if count == MAX || count == "d" => Some("KF-C22-K1"),
+            "RPAD" if count == MAX || count == "d" || count == "-1" => Some("KF-C22-K2"),
+            _ => None,
         };
-        // (`d` is the fixture column that holds i64::MAX)
-        if matches!(args.get(count_pos), Some(&MAX) | Some(&"d")) {
-            return Some("KF-C22-K1");
-        }
     }
     None
 }
@@ -1742,6 +1764,8 @@ fn execute_act(env: &mut Env, act: &Act) -> Vec<(String, Out)> {
     }
     let main = match &act.params {
         Some((ps, mode)) => exec_params(db, sql, ps, *mode),
+        // triage aid: C22_PREPARE_ONLY=1 runs the parser only (Database::prepare)
+        None if std::env::var_os("C22_PREPARE_ONLY").is_some() => do_prepare(db, sql).0,
         None => do_exec(db, sql),
     };
     let main_ok = matches!(main, Out::Rows | Out::Changed(_));
@@ -2012,12 +2036,19 @@ fn isolated(ctx: &Ctx, sub: &str, idx: u64, class: &str, info: &str, rep: &mut R
     let _ = std::fs::remove_dir_all(&dir);
 }
 
-fn setup_process() {
+/// `child`: the process runs exactly one isolated case.  It gets a smaller
+/// address space (an unbounded-growth loop then fails its allocation after ~1 s
+/// instead of racing with the watchdog) and a 60 s CPU limit, so that the way
+/// a known killer dies is deterministic.
+fn setup_process(child: bool) {
     // an abort path (failed allocation, stack overflow) must not spend seconds
     // symbolising a backtrace: it would race with the watchdog
     std::env::set_var("RUST_BACKTRACE", "0");
     start_watchdog();
-    limit_address_space();
+    limit_address_space(if child { 2 } else { 8 });
+    if child {
+        WD_MIN_LIMIT.store(60_000, Ordering::Relaxed);
+    }
     install_hook();
 }
 
@@ -2028,10 +2059,10 @@ impl Check for C22 {
         let mut s = Spec::new(
             "C22",
             "exploration",
-            "a case is one input (sub, idx) to the public API on a small 2-table database: tok = every token sequence of length <= 4 (quick) / <= 5 (thorough) over a 37-token alphabet fed to execute (+ query/prepare when it returns rows); mut = for 160 seed statements (every statement kind of parser.rs) every single-token deletion, duplication and substitution by each alphabet token (thorough: every pair of {delete, substitute by 12 tokens} edits); lex = every byte string of length <= 2 (raw and after 'SELECT '), length 3 over 32 bytes (thorough: all 2^24), every single-byte substitution (256 values for seeds <= 32 bytes, thorough <= 64; 8 values otherwise), deletion, truncation and 6-value insertion of every seed, invalid UTF-8 fed through from_utf8_lossy; par = 36 statements x {arity 0..n+2, each position x 40 extreme values of every OwnedValue variant, all-same-value} x {execute_with_params, prepare+bind+execute, prepare+bind+query} (thorough: value pairs); prag = 17 PRAGMA names x {no value, 16 values} x 3 syntaxes + SET/SHOW/RESET x 3 preludes (thorough: all pairs over a reduced set); arith = 20 edge operands x 19 binary + 5 unary operators x 7 statement contexts, LIMIT/OFFSET 10x10, aggregates over i64::MIN/MAX; fn = 152 function names x all argument tuples of arity <= 2 over 12 edge values and arity 3 over 6 (thorough 12); api = every sequence of length <= 3 (quick) / <= 4 (thorough) over 13 API operations incl. use-after-close; big = 16 nesting constructs x depth {10,100,1000,10000} and 22 huge inputs (1 MB tokens, 1000 columns, 10000-element lists), each in its own child process. Distinct = distinct input text / parameter list / op sequence; non-trivial = not rejected at the first token.",
+            "a case is one input (sub, idx) to the public API on a small 2-table database: tok = every token sequence of length <= 4 (quick) / <= 5 (thorough) over a 37-token alphabet fed to execute (+ query/prepare when it returns rows); mut = for 166 seed statements (every statement kind of parser.rs) every single-token deletion, duplication and substitution by each alphabet token (thorough: every pair of {delete, substitute by 12 tokens} edits); lex = every byte string of length <= 2 (raw and after 'SELECT '), length 3 over 32 bytes (thorough: all 2^24), every single-byte substitution (256 values for seeds <= 32 bytes, thorough <= 64; 8 values otherwise), deletion, truncation and 6-value insertion of every seed, invalid UTF-8 fed through from_utf8_lossy; par = 36 statements x {arity 0..n+2, each position x 40 extreme values of every OwnedValue variant, all-same-value} x {execute_with_params, prepare+bind+execute, prepare+bind+query} (thorough: value pairs); prag = 17 PRAGMA names x {no value, 16 values} x 3 syntaxes + SET/SHOW/RESET on the plain database, a reduced list (7 values) after a WAL-on and an open-transaction prelude (thorough: the full list after both preludes and all ordered pairs of the reduced list); arith = 20 edge operands x 19 binary + 5 unary operators x 7 statement contexts, LIMIT/OFFSET 10x10, aggregates over i64::MIN/MAX; fn = 152 function names x all argument tuples of arity <= 2 over 12 edge values and arity 3 over 6 (thorough 12); api = every sequence of length <= 3 (quick) / <= 4 (thorough) over 13 API operations incl. use-after-close; big = 16 nesting constructs x depth {10,100,1000,10000} and 22 huge inputs (1 MB tokens, 1000 columns, 10000-element lists), each in its own child process. Distinct = distinct input text / parameter list / op sequence; non-trivial = not rejected at the first token.",
         );
         s.assumptions = &[
-            "oracle: every call returns Ok or Err; a caught panic, a dead process (abort, stack overflow, failed allocation) or a watchdog timeout (2 s, 5 s for big cases; needs 75% of the limit as thread CPU time or 5x the limit wall) is a violation",
+            "oracle: every call returns Ok or Err; a caught panic, a dead process (abort, stack overflow, failed allocation) or a watchdog timeout (the worker thread burns 2 s (5 s for multi-call cases, 60 s for the huge inputs of sub-space big) of its own CPU time inside one case, or the case is blocked for max(60 s, 5 x limit) of wall time) is a violation",
             "cases of one block share a database whose state is a deterministic function of (sub, block); replay re-runs the block prefix",
             "workers run with RLIMIT_AS = 8 GiB so an absurd allocation request fails instead of exhausting the shared machine",
             "panic sites are named file(function) by looking up the enclosing fn in the /repo source at the panic line",
@@ -2043,7 +2074,7 @@ impl Check for C22 {
     }
 
     fn run(&self, ctx: &Ctx, rep: &mut Reporter) {
-        setup_process();
+        setup_process(false);
         let g = Gens::new();
         let mut env = Env::new(ctx);
         let mut gid = 0u64;
@@ -2061,6 +2092,7 @@ impl Check for C22 {
                     continue;
                 }
             }
+            let t_sub = Instant::now();
             let n = ctx.tier.pick(sd.quick, sd.thorough);
             rep.bound(&format!("{}_cases_enumerated", sd.name), json!(n));
             let nb = (n + sd.block - 1) / sd.block;
@@ -2093,6 +2125,10 @@ impl Check for C22 {
                 if sd.bulk {
                     rep.bulk(ran, nt);
                 }
+            }
+            if ctx.opt("timing").is_some() {
+                // development aid (not part of the evidence of a normal run)
+                rep.count(&format!("{}.worker_ms_sum", sd.name), t_sub.elapsed().as_millis() as u64);
             }
         }
         env.db = None;
@@ -2132,7 +2168,7 @@ impl Check for C22 {
             isolated(ctx, sd.name, idx, &act.class, &act.info(), rep);
             return;
         }
-        setup_process();
+        setup_process(direct);
         let mut env = Env::new(ctx);
         if sd.block > 1 {
             let lo = idx / sd.block * sd.block;
